@@ -280,9 +280,7 @@ def setUpFile (p : Params) (obj : Objective) (start : Int) (targetChars : Chars)
 def setUpObject (p : Params) (obj : Objective) (start : Int) (file : Option (Chars × DenomFile)) (_old : Option Img)
     (target : Img) : Option (Img × Img) :=
   match file with
-  | none => match setUp p obj start target, _old with
-    | some (t, _), some d => some (t, d)
-    | r, _ => r
+  | none => setUp p obj start target
   | some (targetChars, f) => setUpFile p obj start targetChars f target
 
 /-- what the user configures before one `set_up(target)` + `reconstruct(target)` on the object: the parameters (number of
